@@ -234,3 +234,80 @@ func classBitsOf(fn *ssa.Function, v ssa.Value) ([]int, string) {
 	sort.Ints(out)
 	return out, why
 }
+
+// checkImmediateArithmeticWide (R03.44 for the ALUs, R04.32 for the printer): SIMM16 is a 16-bit
+// field; whatever is computed from it (a branch displacement simm16 * 4, s_addk / s_mulk) is
+// computed after it was widened. An addition, subtraction, multiplication or left shift whose
+// operands still have a 16-bit type wraps modulo 2^16: a branch further than 32 KiB lands 64 or
+// 128 KiB off target.
+func checkImmediateArithmeticWide(c *core.Ctx, rule string, pkgs []string, floor int, what string) {
+	st := c.Rule(rule, "arithmetic on the 16-bit immediate is done after widening: every +, -, * and << that has a value derived from SIMM16 (ReadOperand(inst.SImm16) or SImm16.IntValue, through conversions, masks and one-argument helpers such as asInt16) as an operand has a result type wider than 16 bits. "+what, floor)
+	var fromImm func(v ssa.Value, d int) bool
+	fromImm = func(v ssa.Value, d int) bool {
+		if v == nil || d > 8 {
+			return false
+		}
+		switch x := v.(type) {
+		case *ssa.Convert:
+			return fromImm(x.X, d+1)
+		case *ssa.ChangeType:
+			return fromImm(x.X, d+1)
+		case *ssa.BinOp:
+			if x.Op == token.AND {
+				return fromImm(x.X, d+1) || fromImm(x.Y, d+1)
+			}
+		case *ssa.Phi:
+			for _, e := range x.Edges {
+				if fromImm(e, d+1) {
+					return true
+				}
+			}
+		case *ssa.Call:
+			if x.Call.IsInvoke() {
+				return x.Call.Method.Name() == "ReadOperand" && len(x.Call.Args) > 0 && operandFieldName(x.Call.Args[0]) == "SImm16"
+			}
+			if len(x.Call.Args) == 1 {
+				return fromImm(x.Call.Args[0], d+1)
+			}
+		case *ssa.UnOp:
+			if x.Op == token.MUL {
+				if fa, ok := x.X.(*ssa.FieldAddr); ok && fieldNameOf(fa) == "IntValue" {
+					return operandFieldName(fa.X) == "SImm16"
+				}
+			}
+		}
+		return false
+	}
+	for _, rel := range pkgs {
+		for _, fn := range c.SrcFuncs(rel) {
+			for _, b := range fn.Blocks {
+				for _, in := range b.Instrs {
+					bo, ok := in.(*ssa.BinOp)
+					if !ok {
+						continue
+					}
+					switch bo.Op {
+					case token.ADD, token.SUB, token.MUL, token.SHL:
+					default:
+						continue
+					}
+					if !fromImm(bo.X, 0) && !fromImm(bo.Y, 0) {
+						continue
+					}
+					w, _, okW := typeWidth(bo.Type())
+					if !okW {
+						continue
+					}
+					st.Instances++
+					c.MarkAnalysed(fn)
+					ok = w > 16
+					st.Ob(ok)
+					st.Sample("%s: %s on a value derived from SIMM16 is computed in %d bits", core.FuncName(fn), bo.Op, w)
+					if !ok {
+						c.ReportAt(rule, fn, bo.Pos(), "imm16-arithmetic-in-16-bits:"+bo.Op.String(), fmt.Sprintf("%s computes %s on the 16-bit immediate in %d bits, before it is widened: the result wraps modulo 2^%d (simm16 * 4 of a branch further than 8191 dwords: 0x2000 jumps 32 KiB backwards, 0x4000 stays in place)", core.FuncName(fn), bo.Op, w, w))
+					}
+				}
+			}
+		}
+	}
+}
